@@ -70,10 +70,10 @@ Proof.
     rewrite (IH _ _ Hr). rewrite <- app_assoc. reflexivity.
 Qed.
 
-Lemma step_open_quote els prev br bad q :
+Lemma step_open_quote els elem prev br bad q :
   opt_is prev cESC = false -> is_quote q = true ->
-  step (mk_pst els [] IBr prev br false None bad) q
-  = mk_pst els [q] IBr (Some q) br true (Some q) bad.
+  step (mk_pst els elem IBr prev br false None bad) q
+  = mk_pst els (elem ++ [q]) IBr (Some q) br true (Some q) bad.
 Proof. intros Hp Hq. unfold step. rewrite Hp, Hq. reflexivity. Qed.
 
 Lemma step_close_quote els elem prev br bad q :
@@ -172,14 +172,38 @@ Proof.
     destruct (x =? cESC); [rewrite !orb_true_r; discriminate|reflexivity].
 Qed.
 
+(* the automaton over "[" b q s q "]" *)
+Lemma bytes_key_step (els : list element) (prev : option N) (q : N) (s : pystr) :
+  opt_is prev cESC = false -> is_quote q = true -> has_char q s = false ->
+  forallb simplech s = true ->
+  run (clean els prev) ([cLB] ++ (98 :: q :: s ++ [q]) ++ [cRB])
+  = clean (els ++ [(ABytes s, GET)]) (Some cRB).
+Proof.
+  intros Hp Hq Hs Hsim.
+  cbn [app]. rewrite run_cons, step_open by exact Hp.
+  rewrite run_cons, step_plain by reflexivity.
+  rewrite run_cons, step_open_quote by (first [exact Hq | reflexivity]).
+  cbn [app]. rewrite <- app_assoc, run_app, run_in_quotes by exact Hs.
+  assert (Hl : opt_is (lastc (Some q) s) cESC = false).
+  { apply lastc_not; [cbn; unfold is_quote, cSQ, cDQ, cESC in *; lia|].
+    eapply forallb_impl; [|exact Hsim]. intros x. unfold simplech, cESC. lia. }
+  cbn [app]. rewrite run_cons, step_close_quote by (first [exact Hq | exact Hl]).
+  unfold with_add. cbn [app]. rewrite add_bytes by assumption.
+  rewrite run_cons, step_close_bracket.
+  - reflexivity.
+  - cbn. unfold is_quote, cSQ, cDQ, cESC in *. lia.
+Qed.
+
 Lemma key_ok_cases (k : pkey) : key_ok k = true ->
+  (exists s, key_atom k = ABytes s /\ bytes_ok s = true) \/
   (exists s, key_atom k = AStr s /\ str_ok s = true) \/
   (nonstr_ok (key_atom k) = true /\ stringify_param (key_atom k) = repr_atom (key_atom k)).
 Proof.
-  destruct k as [a|i]; [|right; split; reflexivity].
+  destruct k as [a|i]; [|right; right; split; reflexivity].
   destruct a as [|b|z|t|s|s]; cbn; intros H; try discriminate;
-    try (right; split; [assumption || reflexivity|reflexivity]).
-  left. exists s. split; [reflexivity|exact H].
+    try (right; right; split; [assumption || reflexivity|reflexivity]).
+  - right. left. exists s. split; [reflexivity|exact H].
+  - left. exists s. split; [reflexivity|exact H].
 Qed.
 
 (* the automaton over the text of one reported key *)
@@ -188,7 +212,11 @@ Lemma key_step (els : list element) (prev : option N) (k : pkey) :
   run (clean els prev) (render_key k) = clean (els ++ [(key_atom k, GET)]) (Some cRB).
 Proof.
   intros Hp Hk. unfold render_key.
-  destruct (key_ok_cases k Hk) as [(s & E & Hs)|(Hn & E)].
+  destruct (key_ok_cases k Hk) as [(s & E & Hs)|[(s & E & Hs)|(Hn & E)]].
+  - rewrite E. cbn [stringify_param repr_atom].
+    destruct (repr_bytes_simple s Hs) as (q & Hq & Hqs & ->).
+    apply bytes_key_step; try assumption.
+    unfold bytes_ok in Hs. apply andb_true_iff in Hs. exact (proj1 Hs).
   - rewrite E. cbn [stringify_param].
     destruct (stringify_element_QS s Hs) as (q & Hq & Hqs & ->).
     apply quoted_key_step; try assumption.
@@ -356,6 +384,7 @@ Proof. exists (s2p "root[ 1]"). split; vm_compute; discriminate. Qed.
 (* the guard is satisfiable by hostile keys *)
 Definition hostile_path : path :=
   [PKey (AStr (s2p "a'b]['c")); PIdx 3; PKey (AStr [cESC; 120; cDQ; cBS; cNL; 91; 46]);
-   PKey (AHalf (-1)); PKey ANone; PKey (ABool true); PKey (AInt (-12)); PKey (AStr []); PKey (AStr (s2p "__x"))].
+   PKey (AHalf (-1)); PKey ANone; PKey (ABool true); PKey (AInt (-12)); PKey (AStr []); PKey (AStr (s2p "__x"));
+   PKey (ABytes (s2p "a'b]"))].
 Example hostile_path_ok : path_ok hostile_path = true.
 Proof. reflexivity. Qed.
